@@ -340,6 +340,13 @@ def run_all(tier, seed):
     cfg2 = os.path.join(D.VERIF, 'contracts', 'extract_secp.json')
     if os.path.exists(cfg2):
         d2 = os.path.join(cdir, 'secp')
+        # the functions both configurations share get the hint configuration the ladder settled on
+        c2 = json.load(open(cfg2))
+        c2['nohint_fns'] = list(nohint)
+        c2['drop_bodies'] = list(c2.get('drop_bodies', [])) + list(dropped)
+        c2['skip_hints'] = dict((k, sorted(v)) for k, v in skip.items() if k not in nohint)
+        cfg2 = os.path.join(cdir, 'extract_secp_final.json')
+        json.dump(c2, open(cfg2, 'w'))
         path2, xlog2, err2 = D.gen(d2, extract_cfg=cfg2)
         u = {'gen_path': path2, 'err': (str(err2[2])[:600] if err2 else None), 'lost': [], 'diags': [], 'ok': False, 'wall_s': 0.0, 'cmd': ''}
         if not err2:
